@@ -991,4 +991,60 @@ def verifyDSWork (sup : DSRec → Bool) (dmatch : DKey → Nat → Bytes → Boo
     (dss : List DSRec) : WRes × Nat :=
   dsLoopWork (dsOneWork sup dmatch limit keys g) (uniqueSortedDS dss) 0
 
+/-! ## which error `VerifyRRSIG` surfaces -/
+
+inductive VErr | ok | missingDnskey | missingSigned | period | alg | badSig | noSigs | other
+deriving Repr, DecidableEq
+
+def verr : Verdict → VErr
+  | Verdict.ok => VErr.ok
+  | Verdict.badSig => VErr.badSig
+  | Verdict.noKey => VErr.missingDnskey
+  | Verdict.missingSigned => VErr.missingSigned
+  | Verdict.err => VErr.other
+
+/-- the candidate loop of `verifyOneSig`: nil at the first key that verifies, else the last key's error. -/
+def candErr (cvv : VKey → Verdict) : List VKey → VErr → VErr
+  | [], last => last
+  | k :: t, _ => if cvv k == Verdict.ok then VErr.ok else candErr cvv t (verr (cvv k))
+
+/-- `verifyOneSig` with its error. -/
+def oneSigErr (cv : VKey → VSig → List VRec → Verdict) (inPeriod : VSig → Bool) (supAlg : Nat → Bool)
+    (tagOf : VKey → Nat) (keys : List VKey) (set : List VRec) (sig : VSig) : VErr :=
+  let cands := keys.filter (fun k => tagOf k == sig.tag)
+  if cands.isEmpty then VErr.missingDnskey
+  else if !cands.any (fun k => equalFold sig.signer k.name) then VErr.missingDnskey
+  else if !inPeriod sig then VErr.period
+  else if !supAlg sig.alg then VErr.alg
+  else if !signatureMatchesRRset sig set then VErr.missingSigned
+  else candErr (fun k => cv k sig set) (uniqueSortedKeys (cands.filter (usableSignatureCandidate tagOf sig))) VErr.missingDnskey
+
+/-- the signature loop over one RRset: nil at the first signature that verifies, else the last error. -/
+def sigErr (one : VSig → VErr) : List VSig → VErr → VErr
+  | [], last => last
+  | s :: t, _ => if one s == VErr.ok then VErr.ok else sigErr one t (one s)
+
+def groupErr (per : (Bytes × Nat × Nat) → VErr) : List (Bytes × Nat × Nat) → VErr
+  | [] => VErr.ok
+  | k :: t => if per k == VErr.ok then groupErr per t else per k
+
+/-- `VerifyRRSIG` with the error it returns (RRsets in key order, signatures and keys in their sorted order). -/
+def verifyRRSIGErr (cv : VKey → VSig → List VRec → Verdict) (inPeriod : VSig → Bool) (supAlg : Nat → Bool)
+    (tagOf : VKey → Nat) (keys : List VKey) (zone : Bytes) (m : VMsg) : VErr :=
+  if keys.length = 0 then VErr.missingDnskey else
+  let z := lower (fqdn zone)
+  if m.answer.any (fun r => !exempt z m r && !nameInZone (lower r.name) z) then VErr.missingSigned else
+  let recs := collected z m
+  if recs.isEmpty then VErr.ok
+  else if m.sigs.isEmpty then VErr.noSigs
+  else
+    let sigIdx := m.sigs.filter (fun s => nameInZone (lower s.name) z)
+    let groups := sortBy groupLt (dedupBy id (recs.map rrKey) [])
+    groupErr (fun k =>
+      let set := recs.filter (fun x => rrKey x == k)
+      let sl := sigIdx.filter (fun s => sigKey s == k)
+      if sl.isEmpty then VErr.missingSigned
+      else if !isRRset (hdrsOf set) then VErr.missingSigned
+      else sigErr (oneSigErr cv inPeriod supAlg tagOf keys set) (uniqueSortedSigs sl) VErr.missingSigned) groups
+
 end SdnsVerif.Model.DnssecPrim
